@@ -3,6 +3,7 @@ package props
 import (
 	"crypto/sha256"
 	"fmt"
+	"time"
 
 	"github.com/cloudflare/circl/oprf"
 	"github.com/cloudflare/pat-go/tokens"
@@ -72,8 +73,22 @@ func (c c05) Generate(seed uint64, tier string, idx int) *core.Plan {
 			maxLen = 16
 		}
 		n := r.Range(maxEnum+1, maxLen)
-		for i := 0; i < n; i++ {
-			slots = append(slots, kinds[r.Intn(6)])
+		if idx%16 == 3 {
+			// long batches, mostly failing slots of one type (resources tied to failing requests)
+			n = r.Range(17, 40)
+			bias := kinds[1+3*r.Intn(2)+r.Intn(2)] // an unknown-key or malformed kind
+			for i := 0; i < n; i++ {
+				if r.Bool(80) {
+					slots = append(slots, bias)
+				} else {
+					slots = append(slots, kinds[r.Intn(6)])
+				}
+			}
+			slots = append(slots, bias-bias%10) // a serviceable request of that type at the end
+		} else {
+			for i := 0; i < n; i++ {
+				slots = append(slots, kinds[r.Intn(6)])
+			}
 		}
 	}
 	for i, k := range slots {
@@ -253,6 +268,7 @@ func (c c05) Execute(p *core.Plan) *core.Result {
 		off += sl.reqLen
 	}
 
+	hung := false
 	sess := &world.Session{ID: 1, Type: 100}
 	w.AddSession(sess)
 	var respBytes []byte
@@ -267,8 +283,28 @@ func (c c05) Execute(p *core.Plan) *core.Result {
 					o.Err = fmt.Errorf("batch request decode failed")
 					return
 				}
-				o.Out, o.Err = batchIssuer.EvaluateBatch(r)
+				// the issuer must answer: a call that does not return within 20 s is a hang
+				done := make(chan struct{})
+				go func() {
+					defer func() {
+						if pv := recover(); pv != nil {
+							o.Panic = pv
+						}
+						close(done)
+					}()
+					o.Out, o.Err = batchIssuer.EvaluateBatch(r)
+				}()
+				select {
+				case <-done:
+				case <-time.After(20 * time.Second):
+					hung = true
+				}
 			})
+			if hung {
+				res.Violate("C05/issuer-hang", fmt.Sprintf("EvaluateBatch did not return within 20 s for a batch of %d requests", len(slots)), -1)
+				core.ExitAfterThisPlan = true
+				return
+			}
 			w.Log.Add("evaluate-batch err=%v out=%s", o.Err != nil, core.H(o.Out))
 			if o.Panic != nil {
 				res.Violate("C05/issuer-panic", fmt.Sprint(o.Panic), -1)
